@@ -261,6 +261,16 @@ const FILTER_RETURN: &[&str] = &[
     "let q = 1; @ q == 1 { loop { return; } }",
     "@ true { let f = fn() { return 4; }; f(); }",
     "fn f() { return 1; } @ true { f(); }",
+    // the filter itself nested in a function body, a function literal, a block, an if branch, a loop
+    "fn w() { @ true { return; } } w();",
+    "fn w() { @ true { return 1; } }",
+    "fn w() { @ true { if true { return 5; } } } w();",
+    "let w = fn() { @ true { return 6; } }; w();",
+    "fn w() { fn v() { @ end { return; } } v(); } w();",
+    "{ @ true { return 7; } }",
+    "if true { @ true { return; } }",
+    "let i = 0; while i < 1 { i = i + 1; @ true { return 8; } }",
+    "fn w() { @ true { let f = fn() { return 9; }; f(); } } w();",
 ];
 
 pub struct P02 {
@@ -329,7 +339,8 @@ impl Property for P02 {
     fn run(&self, idx: u64) -> CaseOut {
         if idx >= self.n_prog() {
             let src = FILTER_RETURN[(idx - self.n_prog()) as usize];
-            let must_reject = !src.contains("fn");
+            // legal: the return sits in a function of its own (inside the action, or called from it)
+            let must_reject = !["@ true { let f = fn() { return 4; }; f(); }", "fn f() { return 1; } @ true { f(); }", "fn w() { @ true { let f = fn() { return 9; }; f(); } } w();"].contains(&src);
             return match guarded(|| front(src)) {
                 Err(m) => CaseOut::viol("F panic", format!("front end panicked on {}: {}", src, m)),
                 Ok(Front::CompileError(..)) if must_reject => CaseOut::pass("F return-in-filter-action rejected"),
